@@ -158,9 +158,17 @@ TrStdNew == /\ (IsEvent("jit_std_new") \/ IsEvent("jit_std_new_parallel")) /\ No
             /\ Has(Ev, "half_after_new") => Expect("a generator fresh from JitterRng::new() owes no half", FALSE, Ev.half_after_new)
             /\ UNCHANGED jit
 
+(* A generator that is Copy can be duplicated by value, which is a clone nobody wrote.  Like every clone (JA!ClonePend)  *)
+(* the duplicate owns no half: its first next_u32 collects afresh, so it reads the timer.  (The probe is made while the *)
+(* original owes a half; "possible" is whether the type is Copy at all.)                                                *)
+TrByValueCopy == /\ IsEvent("by_value_copy") /\ NoPanic
+                 /\ Ev.possible => Expect("the first next_u32 of a by-value duplicate (made while the original owes a half) reads the timer",
+                                          TRUE, Ev.dup_reads > 0)
+                 /\ UNCHANGED jit
+
 Init == l = 1 /\ jit = <<>>
 Next == \/ TrReset \/ TrTimer \/ TrNew \/ TrSetRounds \/ TrNextU64 \/ TrNextU32 \/ TrFill \/ TrTimerStats
-        \/ TrTestTimer \/ TrClone \/ TrCloneFrom \/ TrSetPool \/ TrStir \/ TrSeek \/ TrDebug \/ TrDrop \/ TrStdNew
+        \/ TrTestTimer \/ TrClone \/ TrCloneFrom \/ TrSetPool \/ TrStir \/ TrSeek \/ TrDebug \/ TrDrop \/ TrStdNew \/ TrByValueCopy
 Spec == Init /\ [][Next]_vars
 Accepted ==
   IF TLCGet("stats").diameter - 1 = Len(Rec) THEN TRUE
